@@ -89,7 +89,37 @@ fn check_masks(ms: &[Member], res: &[Option<ExtendedMask>], recovering: bool) ->
 }
 
 // ------------------------------------------------------------------ families
+// honest witnesses at the corners the property names: value 0 with all-zero blinding factors (the commitment is the identity), single and inside an aggregate
+fn fam_corner_witnesses(tag: &str, out: &mut Vec<Case>) {
+    for &(bits, m, d, seed) in &[(8usize, 1usize, 1usize, false), (64, 1, 2, true), (16, 4, 1, false)] {
+        let id = format!("{}:complete:identity-commitment:bits={},m={},d={}", tag, bits, m, d);
+        let idc = id.clone();
+        out.push((id, Box::new(move || {
+            let mut rng = rng_for(&idc);
+            let pc = create_pedersen_gens_with_extension_degree(deg(d));
+            let params = RangeParameters::init(bits, m, pc).map_err(|e| format!("{:?}", e))?;
+            let mut openings = vec![]; let mut commitments = vec![];
+            for j in 0..m {
+                let (v, r): (u64, Vec<Scalar>) = if j == 0 { (0, vec![Scalar::ZERO; d]) } else { (rng.next_u64() & ((1u64 << (bits - 1)) - 1), (0..d).map(|_| Scalar::random(&mut rng)).collect()) };
+                commitments.push(params.pc_gens().commit(&Scalar::from(v), &r).map_err(|e| format!("{:?}", e))?);
+                openings.push(CommitmentOpening::new(v, r));
+            }
+            let seed_nonce = if seed && m == 1 { Some(Scalar::random(&mut rng)) } else { None };
+            let statement = RangeStatement::init(params, commitments, vec![None; m], seed_nonce).map_err(|e| format!("{:?}", e))?;
+            let witness = RangeWitness::init(openings).map_err(|e| format!("{:?}", e))?;
+            let proof = RangeProof::prove_with_rng(&mut Transcript::new(b"ctx"), &statement, &witness, &mut rng)
+                .map_err(|e| format!("prover refused an honest witness whose first commitment is the identity (value 0, zero blinding): {:?}", e))?;
+            let mem = Member { statement, proof, blindings: vec![Scalar::ZERO; d], seeded: seed && m == 1 };
+            for action in [VerifyAction::VerifyOnly, VerifyAction::RecoverAndVerify, VerifyAction::RecoverOnly] {
+                let res = verify(&[mem.clone()], action, b"ctx").map_err(|e| format!("honest proof for an identity commitment rejected ({:?}): {}", action, e))?;
+                check_masks(&[mem.clone()], &res, action != VerifyAction::VerifyOnly)?;
+            }
+            Ok(())
+        })));
+    }
+}
 fn fam_completeness(tag: &str, out: &mut Vec<Case>) {
+    fam_corner_witnesses(tag, out);
     // C01 / C12 / C09 / C10: honest proofs verify in every mode, masks are the blinding vectors, any verifier capacity works
     for &bits in &[1usize, 2, 4, 8, 16, 32, 64] {
         for &m in &[1usize, 2, 4, 8] {
@@ -463,6 +493,28 @@ fn fam_prover(tag: &str, out: &mut Vec<Case>) {
                 let mut r = base_r.clone(); r[j][d - 1] += Scalar::ONE; if run(&base_v, &base_v, &r, vec![None; m], None)? { return Err(format!("wrong blinding accepted at position {}", j)); }
             }
             if d < 6 && run(&base_v, &base_v, &base_r, vec![None; m], Some(d + 1))? { return Err("witness of a different extension degree accepted".into()); }
+            // a witness with a different number of openings than the statement has commitments (more, and fewer)
+            for extra in [1usize, m] {
+                let cs: Vec<P> = (0..m).map(|j| params.pc_gens().commit(&Scalar::from(base_v[j]), &base_r[j]).unwrap()).collect();
+                let st = RangeStatement::init(params.clone(), cs, vec![None; m], None).map_err(|e| format!("{:?}", e))?;
+                let mut ops: Vec<_> = (0..m).map(|j| CommitmentOpening::new(base_v[j], base_r[j].clone())).collect();
+                for _ in 0..extra { ops.push(CommitmentOpening::new(1, base_r[0].clone())); }
+                if let Ok(w) = RangeWitness::init(ops) {
+                    let mut r2 = ChaCha12Rng::seed_from_u64(2);
+                    let res = catch_unwind(AssertUnwindSafe(|| RangeProof::prove_with_rng(&mut Transcript::new(b"ctx"), &st, &w, &mut r2))).map_err(|_| "prove_with_rng panicked on a witness with too many openings".to_string())?;
+                    if res.is_ok() { return Err(format!("a witness with {} openings was accepted for {} commitments", m + extra, m)); }
+                }
+            }
+            if m > 1 {
+                let cs: Vec<P> = (0..m).map(|j| params.pc_gens().commit(&Scalar::from(base_v[j]), &base_r[j]).unwrap()).collect();
+                let st = RangeStatement::init(params.clone(), cs, vec![None; m], None).map_err(|e| format!("{:?}", e))?;
+                let ops: Vec<_> = (0..m - 1).map(|j| CommitmentOpening::new(base_v[j], base_r[j].clone())).collect();
+                if let Ok(w) = RangeWitness::init(ops) {
+                    let mut r2 = ChaCha12Rng::seed_from_u64(3);
+                    let res = catch_unwind(AssertUnwindSafe(|| RangeProof::prove_with_rng(&mut Transcript::new(b"ctx"), &st, &w, &mut r2))).map_err(|_| "prove_with_rng panicked on a witness with too few openings".to_string())?;
+                    if res.is_ok() { return Err(format!("a witness with {} openings was accepted for {} commitments", m - 1, m)); }
+                }
+            }
             Ok(())
         })));
     }
